@@ -1202,11 +1202,15 @@ class Epoch(object):
         x = iint(year)
         m = iint(month)
         d = iint(day)
+        julian = Epoch.is_julian(x, m, d)
         if m < 3:
             x -= 1
             m += 12
-        alpha = iint(x / 100.0)
-        beta = 2 - alpha + iint(alpha / 4.0)
+        beta = 0
+        if not julian:
+            # Only Gregorian dates need to be converted to the Julian calendar
+            alpha = iint(x / 100.0)
+            beta = 2 - alpha + iint(alpha / 4.0)
         b = iint(365.25 * x) + iint(30.6001 * (m + 1.0)) + d + 1722519 + beta
         c = iint((b - 122.1) / 365.25)
         d = iint(365.25 * c)
